@@ -90,7 +90,7 @@ CHECKS = {
    level="model_checking", design="DESIGN.md 0A.2, 6.5, 7 (C17)",
    technique="TLA+ specs Upload.tla (server receive_file steps for concurrent uploads under the file lock) and Files.tla (file-secret edits, transfer queue, log push, reader sync, downloads) model-checked with TLC; every terminal upload schedule replayed as gated streaming PUT requests against a live server; simulated file behaviours and TLC-enumerated offline windows (server stopped and restarted) replayed on two NetworkAccount devices and a live server with set comparison against FileReducer; the recorded runs are validated against Files.tla by TLC (FilesTrace.tla), which also decides whether a deviating run is the known finding QueueUnordered",
    text="Upload.tla: create-temp / write-chunk / verify+rename / guard / abort of two uploads of one name, with the file_operation_lock; TLC checks NoPartialExposed, BadRefused, NoLeftovers, GoodAccepted (and shows the lock is what prevents an exposed corrupt file). All terminal schedules of the faithful model plus the racing schedules of the lock-less model are executed against PUT /api/v1/sync/file with bodies streamed chunk by chunk (correct, altered, truncated, empty, extended, dropped connection): the file readable under its name, on disk and through GET, must hash to the name after every step; wrong bodies must not be accepted; no temp file may remain; statuses must equal the model's on faithful schedules. Files.tla: CreateFile / UpdateFile / MoveFile / DeleteSecret / DeleteFolder on the editor, the transfer queue with normalize and MovedMissing, PushLog, SyncReader, Download; TLC checks EditorExact, ServerExact, ReaderExact, ServerSubset. Behaviours are executed on two NetworkAccount devices (real file transfers over HTTP): after every edit the editor's blob set = FileReducer(file log) = model set, each blob hashes to its name, the touched blob decrypts to the original bytes; within the settle time the server's blob set = reduce(server file log) = reduce(editor log) with no stray files; after each reader sync the reader's blob set = reduce(its file log). ServerDown / ServerUp stop and restart the server while the editor keeps editing (the queue retries); every offline window of four edits is enumerated by TLC and a cover of the operation pairs waiting together is run. Each run is recorded (operations, server blob set after each settle) and FilesTrace.tla decides with TLC whether the record is a behaviour of Files.tla: passing runs must be accepted, a run with a wrong server set must be rejected and is a violation unless the model with exactly the deviation QueueUnordered accepts it.",
-   note="Settle time 25 s per step with the repository's fast retry settings (production settings retry a failed transfer after 180 s); only the first device edits (as the property's quantifier says); file-system backend; attachments as custom fields are covered by C03's behaviours but not by the set comparison here."),
+   note="Settle time 25 s per step with the repository's fast retry settings (production settings retry a failed transfer after 180 s); only the first device edits (as the property's quantifier says); file-system backend; one of the two secret slots carries an attachment (custom field with an external file)."),
  "C18": dict(
    level="model_checking", design="DESIGN.md 6.4, 7 (C18)",
    technique="TLA+ spec Account.tla behaviours (TLC transition tour) replayed on LocalAccount; at the end of behaviours export -> import into empty storage -> compare; single-entry mutations of the archive enumerated and imported into a jail directory",
